@@ -47,7 +47,7 @@ enum Kind {
 /// The statement universe: statement number `s < 8` written in one of 8 ways: plain, leading / trailing / surrounding
 /// whitespace and newlines, trailing semicolon, mixed case with inner double whitespace, non-ASCII. The text is what
 /// the caller passes to `prepare()`; a node derives the statement id from its EXACT bytes.
-fn text_v(s: usize, tv: u8) -> String {
+pub fn text_v(s: usize, tv: u8) -> String {
     match tv {
         1 => format!(" q{}", s),
         2 => format!("q{}\n", s),
@@ -1463,6 +1463,9 @@ fn new_infra() -> Infra {
 }
 
 pub fn run(case: &str, ctx: &mut Ctx) -> String {
+    if case.starts_with("pb ") || case.starts_with("cs ") {
+        return crate::c14s::run(case, ctx);
+    }
     // taken out of the thread-local for the duration of the case: a panic or an unclean end drops it
     let mut infra = INFRA.with(|i| i.borrow_mut().take()).unwrap_or_else(new_infra);
     let mut clean = false;
@@ -1756,6 +1759,8 @@ pub fn generate(rng: &mut Rng, tier: Tier, emit: &mut dyn FnMut(String)) {
     }
     // 5. random histories: 1-3 nodes (mixed extension support, with/without timestamp generator), 1-3 statements,
     //    1-3 concurrent callers
+    // 6. the layers above one connection: Connection::prepare_batch, CachingSession, Session::prepare (c14s.rs)
+    crate::c14s::generate(rng, tier, emit);
     let n_random = if quick { 8_000 } else { 150_000 };
     for i in 0..n_random {
         let max = if i % 3 == 0 { 12 } else { 30 };
